@@ -125,8 +125,8 @@ func c09Gen(r *rng.Rand, i int, tier string) interface{} {
 		}
 		prevFocus = focus
 		n := 1 + r.Intn(maxRows)
-		if wide && w < 2 && r.Chance(70) {
-			n = 10 + r.Intn(22)
+		if wide && w < 1 && r.Chance(70) {
+			n = 10 + r.Intn(14)
 		}
 		for j := 0; j < n; j++ {
 			ist := focus
@@ -423,7 +423,7 @@ func init() {
 		CoqRequire:  "Require Import MS.Corr.C09.",
 		CoqCaseType: "C09.case",
 		Rule: "write histories for one variable-length bucket on a real temp instance: 11 timeframes, 1-3 years from {1970..2037}, 1-4 " +
-			"WriteCSM requests of 1-8 rows (1-30 thorough; 10-31 rows of wide repetitive payload in 14% of the cases), many records per " +
+			"WriteCSM requests of 1-8 rows (1-30 thorough; 10-23 rows of wide repetitive payload in 14% of the cases), many records per " +
 			"interval, interval/year edges, Feb 29, whole seconds + a few ns, last ns of a second, sorted / shuffled / cross-year input, 55% of the later requests hit the previous request's interval again; " +
 			"then the raw file state and the query over all time; distinct = distinct input JSON; non-trivial = inside the guard with >= 2 rows",
 		Gen: c09Gen,
